@@ -76,7 +76,51 @@ P = typing.ParamSpec('P')
 Ts = typing.TypeVarTuple('Ts')
 
 
+# type variables whose bound / constraints / default are not what a bound should be (typing accepts all of these), and generics
+# parametrised by them: subscripting such a generic by a class makes beartype compare the class with the bound
+TJunkBound = TypeVar('TJunkBound', bound=42)
+TJunkBoundList = TypeVar('TJunkBoundList', bound=[int])
+TJunkConstr = TypeVar('TJunkConstr', 42, 43)
+TMixedConstr = TypeVar('TMixedConstr', int, 42)
+TStrBound = TypeVar('TStrBound', bound='Plain')
+TUnionBound = TypeVar('TUnionBound', bound=Union[int, str])
+TSubscrBound = TypeVar('TSubscrBound', bound=list[int])
+TTupleBound = TypeVar('TTupleBound', bound=...)
+
+
 class GenericK(Generic[T]):
+    pass
+
+
+class BoxJunk(Generic[TJunkBound]):
+    pass
+
+
+class BoxJunkList(Generic[TJunkBoundList]):
+    pass
+
+
+class BoxJunkConstr(Generic[TJunkConstr]):
+    pass
+
+
+class BoxMixedConstr(Generic[TMixedConstr]):
+    pass
+
+
+class BoxStrBound(Generic[TStrBound]):
+    pass
+
+
+class BoxUnionBound(Generic[TUnionBound]):
+    pass
+
+
+class BoxSubscrBound(Generic[TSubscrBound]):
+    pass
+
+
+class BoxTupleBound(list[TTupleBound]):
     pass
 
 
@@ -115,6 +159,15 @@ ATOMS = {
     'GenericK_int': lambda: GenericK[int], 'GenericK_T': lambda: GenericK[T], 'ProtoGeneric_int': lambda: ProtoGeneric[int],
     'ListSub_int': lambda: ListSub[int], 'ListSub': lambda: ListSub, 'GenericProto': lambda: GenericProto,
     'GenericProto_impl': lambda: GenericProto[DataProtoImpl], 'NT_int': lambda: NT_int,
+    # generics over badly bounded type variables, subscripted by classes
+    'BoxJunk_bool': lambda: BoxJunk[bool], 'BoxJunk_T': lambda: BoxJunk[T], 'BoxJunkList_int': lambda: BoxJunkList[int],
+    'BoxJunkConstr_int': lambda: BoxJunkConstr[int], 'BoxMixedConstr_str': lambda: BoxMixedConstr[str],
+    'BoxStrBound_Plain': lambda: BoxStrBound[Plain], 'BoxStrBound_int': lambda: BoxStrBound[int],
+    'BoxUnionBound_int': lambda: BoxUnionBound[int], 'BoxUnionBound_bytes': lambda: BoxUnionBound[bytes],
+    'BoxSubscrBound_list': lambda: BoxSubscrBound[list], 'BoxTupleBound_int': lambda: BoxTupleBound[int], 'TJunkBound': lambda: TJunkBound,
+    'TJunkConstr': lambda: TJunkConstr, 'TTupleBound': lambda: TTupleBound, 'G695Junk_bool': lambda: _PEP695['G695Junk'][bool],
+    'G695Constr_int': lambda: _PEP695['G695Constr'][int], 'Al695Junk_bool': lambda: _PEP695['Al695Junk'][bool],
+    'G695Union_int': lambda: _PEP695['G695Union'][int], 'G695Union_bytes': lambda: _PEP695['G695Union'][bytes],
     # typing specials
     'Any': lambda: Any, 'NoReturn': lambda: typing.NoReturn, 'Never': lambda: typing.Never, 'Self': lambda: typing.Self,
     'LiteralString': lambda: typing.LiteralString, 'Final': lambda: Final, 'ClassVar': lambda: ClassVar,
@@ -158,6 +211,8 @@ def _deep(n):
 
 
 _PEP695 = {}
+exec('class G695Junk[T: 42]: pass\nclass G695Constr[T: (42, 43)]: pass\ntype Al695Junk[T: 42] = list[T]\n'
+     'class G695Union[T: int | str]: pass\n', _PEP695)
 exec('type AlG[T] = list[T]\ntype AlD[K, V] = dict[K, V]\ntype AlRec = list[AlRec] | int\ntype AlRecG[T] = tuple[T, AlRecG[T]] | None\n'
      'type AlFwd = list[NotYetDefinedAnywhere]', _PEP695)
 
@@ -229,6 +284,9 @@ CTORS = {
     'ItemsView': (2, lambda a, b: cabc.ItemsView[a, b]), 'KeysView': (1, lambda a: cabc.KeysView[a]),
     'Collection': (1, lambda a: cabc.Collection[a]), 'Reversible': (1, lambda a: cabc.Reversible[a]),
     'OrderedDict': (2, lambda a, b: collections.OrderedDict[a, b]), 'defaultdict': (2, lambda a, b: collections.defaultdict[a, b]),
+    'BoxJunk': (1, lambda a: BoxJunk[a]), 'BoxJunkConstr': (1, lambda a: BoxJunkConstr[a]), 'BoxStrBound': (1, lambda a: BoxStrBound[a]),
+    'BoxUnionBound': (1, lambda a: BoxUnionBound[a]), 'BoxTupleBound': (1, lambda a: BoxTupleBound[a]),
+    'G695Junk': (1, lambda a: _PEP695['G695Junk'][a]), 'Al695Junk': (1, lambda a: _PEP695['Al695Junk'][a]),
     'ProtoGeneric': (1, lambda a: ProtoGeneric[a]), 'AlG': (1, lambda a: _PEP695['AlG'][a]),
     'AlD': (2, lambda a, b: _PEP695['AlD'][a, b]), 'AlRecG': (1, lambda a: _PEP695['AlRecG'][a]), 'Pattern': (1, lambda a: typing.Pattern[a]),
 }
